@@ -569,6 +569,25 @@ def rule_forms(ctx):
     if ok:
         ctx.holds('R7', '_init_axes total: %s' % sorted(builders))
     rule_label_list_dispatch(ctx, 'R7')
+    # Axes.from_dict: an explicit dims= decides the order, whether or not the data shape is known (shape-based ordering is the fallback for dims=None only)
+    fd = ctx.fn(AX + 'Axes.from_dict')
+    DIMS_ = P_('dims')
+    for shape_known in (False, True):
+        evd = run(ctx, fd, mode='join', oracle=lambda a, st, sk=shape_known: (
+            False if a == T.mkcmp('is', DIMS_, T.CONST_NONE) else
+            (not sk) if a == T.mkcmp('is', P_('shape'), T.CONST_NONE) else
+            False if (a[0] == 'cmp' and a[1] == '==' and a[3] == const(0) and 'len' in T.show(a[2])) else None))
+        rets = ret_paths(evd)
+        if not rets:
+            ctx.violated('R7', fd, 'from_dict(dims=..., shape %s)' % ('given' if shape_known else 'unknown'), 'Axes.from_dict never returns when dims= is given')
+            continue
+        oks = [any(T.call_name(e.a) == 'sort' and e.a[2][:1] == (DIMS_,) for e in p.calls('sort')) for p in rets]
+        if all(oks):
+            ctx.holds('R7', 'from_dict: dims= orders the axes (shape %s)' % ('given' if shape_known else 'unknown'))
+        else:
+            ctx.violated('R7', fd, 'from_dict(dims=..., shape %s)' % ('given' if shape_known else 'unknown'), 'with an explicit dims= the axes must be ordered by it (axes.sort(dims)); '
+                         'here the order is inferred from the data shape instead: ambiguous for repeated sizes (AssertionError for a 2x2 array) and silently wrong when dims= '
+                         'contradicts the sizes', node=fd.node)
     # builders pair names with labels coherently
     f = ctx.fn(AX + 'Axes.from_arrays')
     ev = run(ctx, f, oracle=lambda a, st: False if a == T.mkcmp('is', P_('dims'), T.CONST_NONE) else None)
